@@ -132,8 +132,15 @@ func cmdControl(args []string) int {
 		return 3
 	}
 	fired := map[string]bool{}
+	known, _ := loadKnown(*verif)
+	isKnown := map[string]bool{}
+	for _, k := range known {
+		if k.Status == "known" {
+			isKnown[k.Rule+"|"+k.Construct] = true
+		}
+	}
 	for _, o := range res.Obs {
-		if o.Status == "violated" || o.Status == "undecided" {
+		if (o.Status == "violated" || o.Status == "undecided") && !isKnown[o.Key()] {
 			fired[o.Rule] = true
 		}
 	}
@@ -235,6 +242,24 @@ func errNotFound(what string) error { return fmt.Errorf("construct not found: %s
 // "(*tableEngine).PlayerCall" or "seat_manager.(*seatManager).rotatePositions".
 func (p *Prog) findFunc(name string) *ssa.Function {
 	for _, f := range p.Funcs {
+		fn := FuncName(f)
+		// "(*seat_manager.seatManager).X" → "(*seatManager).X"
+		if i := strings.Index(fn, "("); i >= 0 {
+			if j := strings.Index(fn, ")"); j > i {
+				recv := fn[i+1 : j]
+				star := strings.HasPrefix(recv, "*")
+				recv = strings.TrimPrefix(recv, "*")
+				if k := strings.LastIndex(recv, "."); k >= 0 {
+					recv = recv[k+1:]
+				}
+				if star {
+					recv = "*" + recv
+				}
+				if fn[:i]+"("+recv+")"+fn[j+1:] == name {
+					return f
+				}
+			}
+		}
 		if FuncName(f) == name || strings.HasSuffix(FuncName(f), "."+name) || strings.HasSuffix(FuncName(f), name) && strings.HasPrefix(name, "(") {
 			return f
 		}
